@@ -20,10 +20,13 @@ META = {
         "set_state) sums to its formal charge within 1e-3 in exact decimal arithmetic (PARSE: all states except NEUTRAL-CPRO, which is refuted - finding C02-F1); "
         "nucleic strands of ANY length with free ends carry exactly -1 per phosphate (AMBER, CHARMM, PARSE, TYL06; one sugar type per strand; mixed DNA/RNA ends within 1e-3); "
         "waters are exactly neutral; exact residue charges give an integer total that passes the integrality guard; set_state's name is prefix(terminus) x base(state) for ALL "
-        "descriptors (wrinkles stated: a one-residue chain gets only the N prefix, N-terminal PRO is NPRO even under NEUTRAL-NTERM); assign_termini flags a non-cyclic chain's "
-        "head and its last polymer residue exactly once with one patch each and leaves cyclic chains alone, and set_termini does so for ALL chain lists without hidden chain ends. "
-        "PARTIAL (_partial): with hidden chain ends (OXT/H3T inside a chain) only residue preservation, N/5' flags on chain heads only and kind-correct flags are proved; "
-        "'one C/3' flag per split chain' is explored (differential runs, Example), not proved. Float rounding in Residue.charge is not modelled (compared numerically)."
+        "descriptors (wrinkles stated: a one-residue chain gets only the N prefix, N-terminal PRO is NPRO even under NEUTRAL-NTERM); set_termini for ALL chain lists, hidden "
+        "chain ends (OXT/H3T inside a chain) included: residues preserved in order, every resulting segment has at most one N/5' flag (on its head) and at most one C/3' flag (on "
+        "its last polymer residue not hidden by an NH2/NME cap), non-cyclic segments have exactly these, the SET of patches and hence the terminus state in ffname is a function "
+        "of the flags however often assign_termini re-applied the patches; chains without hidden ends that are cyclic get nothing. REFUTED (witness replayed on the real "
+        "set_termini, pipeline then aborts): a segment split off after phase 1 keeps its head's N flag even if it is cyclic itself. The integrality guard never raises on residue "
+        "lists made of table states (per-residue 4-decimal rounding modelled in exact decimals; any total within 1e-3 of the exact one passes, float summation error is measured, "
+        "not proved). PARSE: NEUTRAL-N = N - 1 and NEUTRAL-C = C + 1 exactly for all 56 parameterised pairs; the other five force fields know no atom of any NEUTRAL state."
     ),
     "level_note": (
         "Trusted: Coq kernel+vm_compute; generators gen/states.py (state enumeration, formal-charge chemistry table cross-checked by proton counting, final-atom-set derivation "
@@ -48,10 +51,17 @@ THEOREMS = (
         "C02_nterm_pro_is_NPRO",
         "C02_assign_spec",
         "C02_termini_once",
-        "C02_termini_general_partial",
+        "C02_termini_general",
+        "C02_seg_ok_at_most_one",
+        "C02_state_from_flags",
+        "C02_termini_cyclic_after_split_refuted",
+        "C02_cyclic_split_example",
         "C02_hidden_end_example",
         "C02_nonvacuous",
     ]
+    + [f"C02_guard_never_fires_{f}" for f in FFS]
+    + ["C02_neutral_shift_PARSE"]
+    + [f"C02_neutral_absent_{f}" for f in FFS if f != "PARSE"]
 )
 
 HEADER = "From Coq Require Import String List ZArith.\nFrom PV Require Import Model.ForceField Model.States.\nImport ListNotations.\nOpen Scope string_scope.\n"
@@ -204,9 +214,19 @@ def build_layout(spec):
                 _RING_CACHE[key] = B.ring_peptide(list(key), solution=0)
             part = [a.at(a.xyz + [0.0, y0, 0.0]) for a in _RING_CACHE[key]]
             part = B.set_chain(B.renumber(part, lambda c_, r_, ic_, _n=num: r_ - 1 + _n), cid)
+            if ch.get("oxt"):  # malformed on purpose: OXT on the residue that closes the ring
+                last = [a for a in part if a.resseq == part[-1].resseq]
+                f = {a.name: a for a in last}
+                oxt = B.place(f["N"].xyz, f["CA"].xyz, f["C"].xyz, 1.25, 117.0, 60.0)
+                part = part + [B.AtomRec("ATOM", 0, "OXT", "", f["C"].resname, cid, f["C"].resseq, "", float(oxt[0]), float(oxt[1]), float(oxt[2]), 1.0, 0.0, "O")]
             atoms += part
             num += len(ch["seq"])
             expect += [{"name": nm, "role": "cyc", "chain": k} for nm in ch["seq"]]
+            if ch.get("tail"):
+                part = B.build_peptide(ch["tail"], chain=cid, start=num, origin=(14.0, y0 + 9.0, 6.0), relax=False)
+                atoms += part
+                expect += [{"name": nm, "role": "X", "chain": k} for nm in ch["tail"]]
+                num += len(ch["tail"])
         elif kind == "na":
             part = B.build_strand(ch["seq"], chain=cid, start=num, rna=ch.get("rna", False), origin=(0.0, y0, 0.0))
             atoms += part
@@ -359,6 +379,8 @@ def corr_termini(ctx, n):
         {"spec": [{"type": "cyc", "chain": "A", "seq": ["ALA", "GLY", "SER", "ALA", "GLY"], "extras": []}, {"type": "na", "chain": " ", "seq": ["A", "T"], "extras": []}], "ter": True, "neutraln": False, "neutralc": False},
         {"spec": [{"type": "pep", "chain": "A", "segments": [["ALA", "GLY", "ALA"]], "extras": ["NME"]}, {"type": "pep", "chain": " ", "segments": [["GLY", "ALA"]], "extras": ["lig"]}], "ter": False, "neutraln": False, "neutralc": False},
     ]
+    # the refutation witness of C02_termini_cyclic_after_split_refuted, replayed on the real code every run
+    lays.insert(0, {"spec": [{"type": "cyc", "chain": "A", "seq": ["ALA", "GLY", "SER", "ALA", "GLY"], "oxt": True, "tail": ["GLY", "ALA"], "extras": []}], "ter": True, "neutraln": False, "neutralc": False})
     terms, impls, infos, kept = [], [], [], []
     for lay in lays:
         try:
@@ -419,6 +441,11 @@ def run_case(ctx, case):
             for r in self.residues
         ]
         cap["ff"] = ff_
+        tot = 0
+        for r in self.residues:  # exactly main.non_trivial's loop
+            tot += r.charge
+        cap["float_total"] = tot
+        cap["exact_total"] = sum((Decimal(f"{r.charge:.4f}") for r in self.residues), Decimal(0))
         return hits, misses
 
     pbio.Biomolecule.apply_force_field = wrapped
@@ -426,7 +453,7 @@ def run_case(ctx, case):
         r = B.run_pdb2pqr(text, [f"--ff={case['ff']}", *case.get("opts", [])], workdir=ctx.scratch_dir())
     finally:
         pbio.Biomolecule.apply_force_field = orig
-    out = {"expect": expect, "res": cap.get("res"), "ffobj": cap.get("ff"), "err": None if r["exc"] is None else f"{type(r['exc']).__name__}: {r['exc']}", "pqr": None}
+    out = {"expect": expect, "float_total": cap.get("float_total"), "exact_total": cap.get("exact_total"), "res": cap.get("res"), "ffobj": cap.get("ff"), "err": None if r["exc"] is None else f"{type(r['exc']).__name__}: {r['exc']}", "pqr": None}
     if r["pqr_text"] is not None and r["exc"] is None:
         rows = B.parse_pqr(r["pqr_text"])
         # group PQR lines by consecutive (resname, resseq)
@@ -484,6 +511,8 @@ def judge(ctx, case, out, stats):
         ctx.fail({"site": "Biomolecule residues", "condition": "residue-count", "ff": ff}, f"{len(exp)} residues built, {len(res)} after processing", tag)
         return
     ffobj = out["ffobj"]
+    if out.get("float_total") is not None:
+        stats["float_err_max"] = max(stats.get("float_err_max", 0.0), abs(Decimal(repr(float(out["float_total"]))) - out["exact_total"]))
     all_param = True
     formal_total = 0
     strand = {}
@@ -550,6 +579,45 @@ def judge(ctx, case, out, stats):
             ctx.fail({"site": "PQR charge column", "ff": ff, "condition": "total-not-integer-sum"}, f"PQR total {tot}, sum of formal charges {formal_total}", tag)
 
 
+def neutral_checks(ctx, results):
+    """(a) metamorphic: PARSE --neutraln lowers the N-terminal residue by exactly 1 (PRO: unchanged), --neutralc raises
+    the C-terminal one by exactly 1, nothing else moves; (b) the other force fields reject both options before any work."""
+    from harness import builder as B
+
+    base = {}
+    for case, out in results:
+        if case["ff"] == "PARSE" and not case.get("opts") and out["res"] and out["err"] is None:
+            base[json.dumps(case["spec"], sort_keys=True)] = out
+    for case, out in results:
+        opts = case.get("opts", [])
+        if case["ff"] != "PARSE" or not opts or not out["res"] or out["err"] is not None:
+            continue
+        ref = base.get(json.dumps(case["spec"], sort_keys=True))
+        if ref is None or len(ref["res"]) != len(out["res"]):
+            continue
+        for k, (e, r0, r1) in enumerate(zip(out["expect"], ref["res"], out["res"])):
+            if r0["missing"] or r1["missing"] or not r0["atoms"]:
+                continue
+            want = 0
+            if e["role"] in ("N", "NC") and "--neutraln" in opts and CLASS_OF.get(e["name"]) != "PRO":
+                want -= 1
+            if e["role"] in ("C", "NC") and "--neutralc" in opts:
+                want += 1
+            d = Decimal(r1["exact"]) - Decimal(r0["exact"])
+            ctx.evaluated(f"shift:{e['name']}:{e['role']}:{'+'.join(opts)}", want != 0)
+            if d != want:
+                ctx.fail({"site": "neutral terminus shift", "ff": "PARSE", "state": r1["ffname"], "condition": "shift-not-unit"}, f"{r0['ffname']} {r0['exact']} -> {r1['ffname']} {r1['exact']} under {opts}: shift {d}, expected {want}", {"ff": "PARSE", "opts": opts, "spec": case["spec"], "residue": k})
+    text, _ = pdb_text([{"type": "pep", "chain": "A", "segments": [["ALA", "GLY", "SER"]], "extras": []}])
+    for ff in FFS:
+        if ff == "PARSE":
+            continue
+        for opt in ("--neutraln", "--neutralc"):
+            r = B.run_pdb2pqr(text, [f"--ff={ff}", opt], workdir=ctx.scratch_dir())
+            ctx.evaluated(f"reject:{ff}:{opt}", True)
+            if r["exc"] is None or r["pqr_text"] is not None:
+                ctx.fail({"site": "main.check_options", "ff": ff, "condition": "neutral-option-accepted"}, f"{opt} with --ff={ff} was not rejected", {"ff": ff, "opts": [opt], "spec": [{"type": "pep", "chain": "A", "segments": [["ALA", "GLY", "SER"]], "extras": []}]})
+
+
 def triple_cases(rng, ffs, shift):
     names = AA20 + VARIANTS
     n = len(names)
@@ -581,6 +649,8 @@ def other_cases(rng, thorough):
         cases.append({"spec": [{"type": "cyc", "chain": "A", "seq": ["ALA", "GLY", "SER", "ALA", "GLY"], "extras": []},
                                {"type": "pep", "chain": "B", "segments": [["GLY", "ALA"]], "extras": []}], "ff": ff, "opts": []})
         cases.append({"spec": [{"type": "pep", "chain": " ", "segments": [["THR", "ALA", "VAL"]], "start": 998, "extras": ["wat"]}], "ter": False, "ff": ff, "opts": []})
+        if ff == "AMBER":  # the cyclic-after-split witness must not produce a PQR silently
+            cases.append({"spec": [{"type": "cyc", "chain": "A", "seq": ["ALA", "GLY", "SER", "ALA", "GLY"], "oxt": True, "tail": ["GLY", "ALA"], "extras": []}], "ff": ff, "opts": []})
         # no OXT in the input (pdb2pqr rebuilds it): the chain end must still become a C-terminus
         cases.append({"spec": [{"type": "pep", "chain": "A", "segments": [["SER", "ALA", "GLY", "LEU"]], "oxt": False, "extras": []}], "ff": ff, "opts": []})
     return cases
@@ -598,9 +668,11 @@ def search(ctx, volume, seeds=()):
             opts = (["--neutraln"] if lay.get("neutraln") else []) + (["--neutralc"] if lay.get("neutralc") else [])
             cases.append({"spec": lay["spec"], "ter": lay.get("ter", True), "ff": ff, "opts": opts if ff == "PARSE" else []})
     first = None
+    cases_results = []
     for case in cases:
         try:
             out = run_case(ctx, case)
+            cases_results.append((case, out))
         except Exception as e:  # builder trouble: count, do not judge
             ctx.count(f"e2e:skipped-{type(e).__name__}")
             continue
@@ -608,6 +680,12 @@ def search(ctx, volume, seeds=()):
         judge(ctx, case, out, stats)
         if first is None and out["res"]:
             first = {"ff": case["ff"], "opts": case.get("opts", []), "residues": [(r["ffname"], r["exact"]) for r in out["res"]]}
+    neutral_checks(ctx, cases_results)
+    ferr = stats.pop("float_err_max", None)
+    if ferr is not None:
+        ctx.notes.append(f"max |float total handed to noninteger_charge - exact decimal total| over all runs: {float(ferr):.3e} (guard tolerance 1e-3)")
+        if ferr > Decimal("1e-6"):
+            ctx.fail({"site": "main total charge", "condition": "float-sum-error-above-1e-6"}, f"float summation error {ferr}", {"kind": "float"})
     for k, v in stats.items():
         ctx.count(f"e2e:{k}", v)
     if first:
